@@ -179,12 +179,54 @@ EXTRA = {   # rounds 5-6 (DESIGN.md section 0e)
            "accepts a clash with the first registered type); the one reviewed memo must key by the value it was asked for.",
 }
 
+EXTRA2 = {   # rounds 7-8 (DESIGN.md section 0f)
+    "C01": "Rounds 7-8: nothing memoised returns or is keyed on a mutable object; nothing computed from the fields is memoised on the value; a decoder that steps an attribute of its options "
+           "puts it back in a finally (W22); a component's presence depends on its field, not on a flag argument (W23); string_encoding defaults are utf-8; late appends after the reading loop.",
+    "C02": "Rounds 7-8: nothing on the decode path is memoised on a view / bytearray key or hands out a shared mutable result (L12).",
+    "C03": "Rounds 7-8: B13 LDAPString default utf-8; B14/B15 no memoised mutable results / views of fields; W23 presence depends on the field alone.",
+    "C04": "Rounds 7-8: V9 tag tests name class and number; V10 read-then-skip; V11 leaving a reader (`__exit__`) rejects nothing; `with reader.read_sequence() as r:` is followed.",
+    "C05": "Rounds 7-8: `assert` is a raiser unless its test is established; None handed to a reader constructor; shift counts; logging calls are read as what they can do (argument evaluation, str()/repr() under a swallowing handler).",
+    "C06": "Rounds 7-8: an explicit raise of the incomplete-input signal outside asn1.py has provenance `derived`; AssertionError escapes are reported.",
+    "C07": "Rounds 7-8: S12 every codec parameter is read; S13 header tag stands in for the default (per read_* method); S14 no memoised mutable octets; S8 through a private append helper; S11 the ENUMERATED routines pin no parameter of the INTEGER routines.",
+    "C09": "Rounds 7-8: N6 the text of a refusal cannot fail to build.",
+    "C11": "Rounds 7-8: M1 also on the closing pairs; M2 parameters of sending methods reach the fields of the same name.",
+    "C12": "Rounds 7-8: D6 a running total the drain reads back counts the bytes handed out, not the amount asked for; totals never read back are not judged.",
+    "C13": "Rounds 7-8: J7 path-sensitive; J16 values decoded on every binding; J17 delimiter scans cover the first octet; J18 no capacity limit (a raise guarded by counters only) in the parser; J19 the text is computed "
+           "when asked (no memoised view of the fields); J2 over pattern alternatives.",
+    "C15": "Rounds 7-8: a span computed from the whole view is an absolute position (F2).",
+    "C16": "Rounds 7-8: H14 decoder strips only the quotes; H15 presence tests guard their own field; H16 serialisers are total; H17 extension names kept as written; H18 a special character left bare under a "
+           "look-ahead is not where the reader would take it for an escape.",
+    "C17": "Rounds 7-8: G12 the de-quoted text is the one read; G13 every extension read is stored; G14 under the name the text has.",
+    "C18": "Rounds 7-8: look-ahead assertions are built as empty transitions and an ambiguity found next to one is confirmed or dismissed by counting runs over the witness family with the assertion evaluated.",
+    "C19": "Rounds 7-8: I6 compares ids over the whole list; I7 shared with the other checks (immutable results, hashable keys; NamedTuple and enum results are immutable).",
+}
+
 NOT_APPLICABLE = {
     "C14": "agreement of a hand-written offset-arithmetic parser with the RFC 4515 grammar on every sentence is semantic "
            "equivalence over unbounded strings; no sound static argument in reach decides it (lexical pieces are checked under C13/C15)",
 }
 
 PENDING_REASON = "checker not built yet in this session (static-analysis plan in DESIGN.md); listed here until it is registered"
+
+
+def seed_summary() -> str:
+    """Counts taken from the recorded matrix (seeded/*/meta.json, written by tools/seedmatrix.py)."""
+    import glob
+    rows = [json.load(open(p_)) for p_ in sorted(glob.glob(os.path.join(VERIF, "seeded", "*", "meta.json")))]
+    ben = [m for m in rows if str(m.get("property", "")).startswith(("none", "benign"))]
+    brk = [m for m in rows if m not in ben]
+    det = [m for m in brk if m.get("detected_by")]
+    own = [m for m in brk if any(c in str(m.get("property")) for c in m.get("detected_by", {}))]
+    missed = [m["id"] for m in brk if not m.get("detected_by")]
+    b_viol = [m["id"] for m in ben if m.get("detected_by")]
+    b_err = [m["id"] for m in ben if m.get("analysis_errors") and not m.get("detected_by")]
+    silent = len(ben) - len(b_viol) - len(b_err)
+    unconf = [m["id"] for m in rows if not m.get("confirmed")]
+    return (f"{len(rows)} seeded variants are kept under /verif/seeded (rounds of independent sub-agents that saw only the property text and a scratch worktree, hand-written twins, and the 18 reverts "
+            f"of fix commits){'' if not unconf else ' - not confirmed: ' + ', '.join(unconf)}: {len(brk)} property-breaking, {len(det)} reported by at least one check ({len(own)} by the check of the property "
+            f"they were written against; not reported: {', '.join(missed) if missed else 'none'}); {len(ben)} behaviour-preserving, {silent} silent in every check, {len(b_err)} an ANALYSIS-ERROR "
+            f"(exit 2, no verdict) in the checks whose extractor cannot follow them ({', '.join(b_err) if b_err else 'none'}), "
+            f"{len(b_viol)} with a VIOLATION{' (' + ', '.join(b_viol) + ')' if b_viol else ''}.")
 
 
 def main():
@@ -196,6 +238,8 @@ def main():
         c = dict(CHECKS[pid])
         if pid in EXTRA:
             c["text"] = c["text"] + " " + EXTRA[pid]
+        if pid in EXTRA2:
+            c["text"] = c["text"] + " " + EXTRA2[pid]
         checks.append({
             "property_id": pid,
             "quick_cmd": f"/venv/bin/python sa/run.py {pid} --tier quick",
@@ -234,11 +278,7 @@ def main():
                  "variants it is recorded to report, behaviour-preserving variants it must stay silent on), each applied to a scratch copy of the current working "
                  "tree; that self-test is written to the evidence and never changes the verdict. 18 genuine defects were repaired by fix: commits in /repo "
                  "(6de8880..7a61bad; F15 was found by the C17 typestate analysis, F16 after Engine C's codec catalogue was corrected) and 2 are known findings "
-                 "pinned by tests; see /verif/known_findings.txt and DESIGN.md sections 0-0e, 2 and 10. 501 seeded variants are kept under /verif/seeded (6 rounds of "
-                 "independent sub-agents plus the 18 reverts of fix commits): 324 property-breaking, 321 reported by at least one check (295 by the check of the "
-                 "property they were written against; the 3 misses are named in DESIGN.md 0e); 177 behaviour-preserving, 169 silent in every check and 8 an "
-                 "ANALYSIS-ERROR (exit 2, no verdict) in the checks whose extractor cannot follow them (table-interpreting decoders, readers / text kept in "
-                 "helper-object state, a pattern passed as a parameter, a separate value-codec class), none a VIOLATION.",
+                 "pinned by tests; see /verif/known_findings.txt and DESIGN.md sections 0-0f, 2 and 10. " + seed_summary(),
     }
     with open(os.path.join(VERIF, "MANIFEST.json"), "w") as f:
         json.dump(man, f, indent=1)
